@@ -2,6 +2,7 @@
 # grids are built from TLC's layout plans (spec/Layout.tla) and the payload catalogue (gengrid.py);
 # hszinc dumps/parses them; TLC judges with the reader machine (spec/ZincRead.tla, Trace_Zinc.tla).
 import json
+import zlib
 import random
 from concurrent.futures import ThreadPoolExecutor
 
@@ -118,10 +119,14 @@ def build_grids(hs, plans, tier, rng):
 
 def make(cat, recipe):
     if recipe[0] == 'empty':
-        return cat.empty_grid(recipe[1])
-    if recipe[0] == 'place':
-        return cat.place(recipe[1], recipe[2])
-    return cat.pair(recipe[1], recipe[2], recipe[3])
+        g = cat.empty_grid(recipe[1])
+    elif recipe[0] == 'place':
+        g = cat.place(recipe[1], recipe[2])
+    else:
+        g = cat.pair(recipe[1], recipe[2], recipe[3])
+    # a deterministic share of the grids goes through a history first (refused operations, re-ordered columns)
+    how = zlib.crc32(json.dumps(recipe, sort_keys=True, default=str).encode()) % 9
+    return gengrid.disturb(cat.hs, g, how)
 
 
 def run_zinc(rep, tier, want):
@@ -133,6 +138,13 @@ def run_zinc(rep, tier, want):
     with Work('zinc') as work:
         plans = tlc_plans(rep, work)
         cat, items = build_grids(hs, plans, tier, rng)
+        # calls that must leave no trace: comparisons of the official versions with other spellings of the same numbers,
+        # documents whose headers spell them with more or fewer groups
+        for a in ('3.0.0', '2.0.0', '3', '2', '3.0.0.0'):
+            for b in (hs.VER_3_0, hs.VER_2_0, hs.Version('3.0'), hs.Version('2.0')):
+                hs.Version(a) == b, b == hs.Version(a), hs.Version(a) < b, b <= hs.Version(a), hash(hs.Version(a))
+        for t in ('ver:"3.0.0"\na\n1\n', 'ver:"2.0.0"\na\n1\n', 'ver:"3"\na\n1\n', 'ver:"2"\na\nBin(t/p)\n'):
+            hs.dump(hs.parse(t, mode=hs.MODE_ZINC), mode=hs.MODE_ZINC)
         cases, info = [], {}
         nid = 0
         docs = []
@@ -159,9 +171,22 @@ def run_zinc(rep, tier, want):
                 ab = A.doc(grids)
             except absval.NotAbstractable as e:
                 raise MachineryError('catalogue value has no abstract form: %s' % e)
-            try:
-                text = hs.dump(grids[0] if single else grids, mode=hs.MODE_ZINC)
             except Exception as e:
+                # the grid was built through public calls only (incl. refused ones): it must still be readable
+                for p in want:
+                    found.append((p, dict(meta, engine='zinc', clause='grid_unreadable_after_its_history', exc=type(e).__name__),
+                                  {'plan': meta, 'exception': repr(e)[:300]}))
+                rep.case(json.dumps(meta, sort_keys=True))
+                continue
+            try:
+                text = hs.dump(grids[0] if single else grids,
+                               mode=[hs.MODE_ZINC, 'zinc', 'ZINC', hs.MODE_ZINC, 'Zinc'][len(docs) % 5 if not single else nid % 5])
+            except Exception as e:
+                if isinstance(e, ValueError) and str(meta.get('payload', '')).startswith(('fx_', 'edge_fx')):
+                    # a bare offset no Haystack zone has at that instant cannot be written (C17): outside the domain
+                    rep.extra['bare_offsets_without_zone'] = rep.extra.get('bare_offsets_without_zone', 0) + 1
+                    rep.case(json.dumps(meta, sort_keys=True))
+                    continue
                 for p in want:
                     found.append((p, dict(meta, engine='zinc', clause='dump_raises', exc=type(e).__name__),
                                   {'plan': meta, 'exception': repr(e)[:300]}))
@@ -170,7 +195,8 @@ def run_zinc(rep, tier, want):
             rep.case(json.dumps(meta, sort_keys=True))
             if 'C04' in want:
                 nid += 1
-                cases.append({'id': nid, 'k': 'denotes', 'strict': True, 'text': absval.cps(text), 'expect': ab})
+                cases.append({'id': nid, 'k': 'denotes', 'strict': True, 'text': absval.cps(text), 'expect': ab,
+                              'verexact': absval.cps(meta['ver']) if single and meta.get('ver') in ('2.0', '3.0') else []})
                 info[nid] = ('C04', meta, text)
             if 'C01' in want:
                 try:
